@@ -8,7 +8,7 @@
  *       A <peer> <hex>   client request (iCalendar text, hex) from peer uid <peer>
  *       X <k> <status>   exit of the k-th supervised child (0-based, in spawn order)
  *       Q                dump the task table
- *       H <peer> <hex>   HTTP request line from peer
+ *       H <peer> <hex>   HTTP request line from peer (HQ: the same, GET …/queue; the model tells them apart)
  *       C                checkpoint timer fires
  *       K <k>            die at the k-th interposed file-system call from now on
  *       F <k> <errno>    the k-th interposed file-system call from now on fails with errno
@@ -121,14 +121,27 @@ static struct passwd pwtab[] = {
 	{"carol", "x", 1003, 1003, "", "/home/carol", "/bin/sh"},
 	{"dave", "x", 1004, 1004, "", "/home/dave", "/bin/zsh"},
 };
+/* a crowd of further known users, uids 2001..2040 (names u2001..), for histories with more owners than the
+ * daemon's fixed-size lists hold */
+static struct passwd *hx_crowd(uid_t u)
+{
+	static struct passwd pw;
+	static char nm[16], hm[32];
+	if (u < 2001 || u > 2040) return NULL;
+	snprintf(nm, sizeof(nm), "u%u", (unsigned)u);
+	snprintf(hm, sizeof(hm), "/home/u%u", (unsigned)u);
+	pw = (struct passwd){nm, "x", u, u, "", hm, "/bin/sh"};
+	return &pw;
+}
 static struct passwd *hx_getpwuid(uid_t u)
 {
 	for (size_t i = 0; i < sizeof(pwtab) / sizeof(*pwtab); i++) if (pwtab[i].pw_uid == u) return pwtab + i;
-	return NULL;
+	return hx_crowd(u);
 }
 static struct passwd *hx_getpwnam(const char *n)
 {
 	for (size_t i = 0; i < sizeof(pwtab) / sizeof(*pwtab); i++) if (!strcmp(pwtab[i].pw_name, n)) return pwtab + i;
+	if (n[0] == 'u' && n[1] >= '0' && n[1] <= '9') return hx_crowd((uid_t)atol(n + 1));
 	return NULL;
 }
 #define getpwuid hx_getpwuid
@@ -387,7 +400,7 @@ static void do_op(char *op)
 		}
 		for (int i = 0; i < nr; i++) for (int j = i + 1; j < nr; j++) if (strcmp(r[i].uid, r[j].uid) > 0) { __typeof(r[0]) t = r[i]; r[i] = r[j]; r[j] = t; }
 		for (int i = 0; i < nr; i++) out("%s%s:%u:%016llx:%zu", i ? "," : "", r[i].uid, r[i].owner, (unsigned long long)r[i].cur, r[i].nsim);
-	} else if (!strcmp(a[0], "H") && n >= 3) {
+	} else if ((!strcmp(a[0], "H") || !strcmp(a[0], "HQ")) && n >= 3) {
 		static char txt[8192];
 		size_t len = unhex(a[2], txt, sizeof(txt));
 		struct echs_cmdparam_s cmd[1]; memset(cmd, 0, sizeof(cmd));
